@@ -3066,15 +3066,10 @@ fn transcode_double_quoted_to_json(
                         i += 2;
                     }
                     b'u' => {
-                        // \uNNNN - 4 hex digits
-                        if i + 4 >= bytes.len() {
-                            return Err(YamlStringError::InvalidEscape);
-                        }
-                        let hex = &bytes[i + 1..i + 5];
-                        let codepoint = parse_hex(hex)?;
-                        let ch = char::from_u32(codepoint).ok_or(YamlStringError::InvalidEscape)?;
+                        // \uNNNN - 4 hex digits, or a surrogate pair of two
+                        let (ch, len) = decode_u_escape(bytes, i)?;
                         write_json_escape(output, ch);
-                        i += 4;
+                        i += len;
                     }
                     b'U' => {
                         // \UNNNNNNNN - 8 hex digits
@@ -3802,14 +3797,9 @@ fn stream_transcode_double_quoted_to_json<Out: core::fmt::Write>(
                         i += 2;
                     }
                     b'u' => {
-                        if i + 4 >= bytes.len() {
-                            return Err(YamlStringError::InvalidEscape);
-                        }
-                        let hex = &bytes[i + 1..i + 5];
-                        let codepoint = parse_hex(hex)?;
-                        let ch = char::from_u32(codepoint).ok_or(YamlStringError::InvalidEscape)?;
+                        let (ch, len) = decode_u_escape(bytes, i)?;
                         stream_json_escape(out, ch).map_err(|_| YamlStringError::InvalidUtf8)?;
-                        i += 4;
+                        i += len;
                     }
                     b'U' => {
                         if i + 8 >= bytes.len() {
@@ -5255,15 +5245,10 @@ fn decode_double_quoted(bytes: &[u8]) -> Result<String, YamlStringError> {
                         i += 2;
                     }
                     b'u' => {
-                        // \uNNNN - 4 hex digits
-                        if i + 4 >= bytes.len() {
-                            return Err(YamlStringError::InvalidEscape);
-                        }
-                        let hex = &bytes[i + 1..i + 5];
-                        let codepoint = parse_hex(hex)?;
-                        result
-                            .push(char::from_u32(codepoint).ok_or(YamlStringError::InvalidEscape)?);
-                        i += 4;
+                        // \uNNNN - 4 hex digits, or a surrogate pair of two
+                        let (ch, len) = decode_u_escape(bytes, i)?;
+                        result.push(ch);
+                        i += len;
                     }
                     b'U' => {
                         // \UNNNNNNNN - 8 hex digits
@@ -5543,6 +5528,36 @@ fn parse_hex(hex: &[u8]) -> Result<u32, YamlStringError> {
         value = value * 16 + digit as u32;
     }
     Ok(value)
+}
+
+/// Decode the `\uNNNN` escape whose `u` is at `bytes[i]`, returning the
+/// character and how many bytes the escape spans after that `u`.
+///
+/// JSON spells a character outside the Basic Multilingual Plane as a UTF-16
+/// surrogate pair (`\ud83d\ude00`, RFC 8259 section 7), and JSON documents are
+/// valid input here, so a high surrogate immediately followed by a `\u` low
+/// surrogate decodes to the one character the pair encodes. A surrogate
+/// without its partner is not a character and stays an error.
+fn decode_u_escape(bytes: &[u8], i: usize) -> Result<(char, usize), YamlStringError> {
+    let hex4 = |at: usize| {
+        bytes
+            .get(at..at + 4)
+            .ok_or(YamlStringError::InvalidEscape)
+            .and_then(parse_hex)
+    };
+    let unit = hex4(i + 1)?;
+    if (0xD800..=0xDBFF).contains(&unit) && bytes.get(i + 5..i + 7) == Some(b"\\u".as_slice()) {
+        let low = hex4(i + 7)?;
+        if (0xDC00..=0xDFFF).contains(&low) {
+            let codepoint = 0x10000 + ((unit - 0xD800) << 10) + (low - 0xDC00);
+            return char::from_u32(codepoint)
+                .map(|ch| (ch, 10))
+                .ok_or(YamlStringError::InvalidEscape);
+        }
+    }
+    char::from_u32(unit)
+        .map(|ch| (ch, 4))
+        .ok_or(YamlStringError::InvalidEscape)
 }
 
 /// The indent the decoders use when [`YamlString::block_content_indent`] returns
@@ -7751,6 +7766,44 @@ mod tests {
             start: 0,
         };
         assert_eq!(&*s2.as_str().unwrap(), "\u{1234}");
+    }
+
+    #[test]
+    fn test_double_quoted_surrogate_pair_escape_three_decoders_agree() {
+        // JSON's spelling of a non-BMP character is a `\uD8xx\uDCxx` pair; all
+        // three double-quoted decoders combine it, as a value and as a key.
+        let yaml = b"{\"k\\uDBFF\\uDFFFz\":\"x\\ud83d\\ude00y\"}";
+        let expected = "{\"k\u{10FFFF}z\":\"x\u{1F600}y\"}";
+        let index = YamlIndex::build(yaml).unwrap();
+        assert_eq!(index.root(yaml).to_json_document(), expected);
+        let mut out = String::new();
+        index
+            .root(yaml)
+            .stream_json_document(&mut out, IndentSpec::COMPACT, false)
+            .unwrap();
+        assert_eq!(out, expected);
+        let s = YamlString::DoubleQuoted {
+            text: b"\"x\\ud83d\\ude00y\"",
+            start: 0,
+        };
+        assert_eq!(&*s.as_str().unwrap(), "x\u{1F600}y");
+    }
+
+    #[test]
+    fn test_decode_double_quoted_lone_surrogate_escape_is_an_error() {
+        // Either half without its partner is not a character.
+        for text in [
+            &b"\"\\ud83d\""[..],
+            b"\"\\ud83dx\"",
+            b"\"\\ud83d\\n\"",
+            b"\"\\ud83d\\u0041\"",
+            b"\"\\ud83d\\ud83d\"",
+            b"\"\\ude00\"",
+            b"\"\\ude00\\ud83d\"",
+        ] {
+            let s = YamlString::DoubleQuoted { text, start: 0 };
+            assert_eq!(s.as_str(), Err(YamlStringError::InvalidEscape));
+        }
     }
 
     #[test]
